@@ -17,6 +17,7 @@
 package workercmd
 
 import (
+	"bytes"
 	"context"
 	"crypto"
 	"crypto/hmac"
@@ -178,6 +179,11 @@ func (h *handler) handle(rw http.ResponseWriter, req *http.Request) (resp worker
 		key, err := h.token.GetKey(ctx, rr.KeyName)
 		if err != nil {
 			return resp, err
+		}
+		if rr.KeyID != nil && !bytes.Equal(key.GetID(), rr.KeyID) {
+			// the key behind this name was replaced since the caller looked it
+			// up (and checked it against the certificate it is going to embed)
+			return resp, fmt.Errorf("key %q was replaced in the token: have id %x, caller expects %x", rr.KeyName, key.GetID(), rr.KeyID)
 		}
 		resp.Value, err = key.SignContext(ctx, rr.Digest, opts)
 		return resp, err
